@@ -61,7 +61,8 @@ func Recv2[T any](c *Chan[T]) (T, bool) {
 		var z T
 		return z, false
 	}
-	return k.rv.(T), true
+	v, _ := k.rv.(T) // a nil interface value travels as nil: the comma-ok form yields T's zero value, which is that nil
+	return v, true
 }
 
 func Recv[T any](c *Chan[T]) T {
@@ -96,7 +97,8 @@ func RecvCase[T any](c *Chan[T]) *RCase[T] {
 // fill copies the received value into the typed case after the select.
 func (r *RCase[T]) fill() {
 	if r.c.rok {
-		r.Val, r.Ok = r.c.rv.(T), true
+		r.Val, _ = r.c.rv.(T)
+		r.Ok = true
 	}
 }
 
